@@ -642,7 +642,7 @@ pub fn property() -> Property {
         title: "Encoding emits exactly the modelled content in the documented CBOR shape",
         rule: "well-formed in-memory values (struct literals built from model values; headers also through HeaderBuilder) of headers, all eight message structures with nesting <= 3, keys, key sets and labels, \
                over generated field subsets (every field singly and in combination, empty vs non-empty, 0/1/2+ counter-signatures, nil/empty/non-empty payloads, every label class); \
-               to_vec / to_tagged_vec output read by the strict reader and compared with the reference shape, then decoded and compared with the value; claims sets, KDF contexts, party and supplementary info are covered by C18's encode direction; \
+               to_vec / to_tagged_vec output read by the strict reader and compared with the reference shape, then decoded and compared with the value; claims sets also directly (struct literals, all claims, whole / fractional time stamps); KDF contexts, party and supplementary info are covered by C18's encode direction; \
                non-trivial = >= 2 populated fields or any nested structure; distinct by model value",
         assumptions: &["well-formed value = accepted by the reference model of its type; built protected headers carry no retained bytes", "maps compared modulo order of typed entries; extras in their given relative order"],
         exhaustive_domains: &[],
